@@ -201,7 +201,7 @@ def ob_e2e(tier):
             elif last == "AsciiInteger":
                 fill = ("%d" % (k * 41 % 1000)).rjust(w)[-w:]
             elif last == "Bytes":
-                buf[off:off + w] = bytes((k * 7 + j) % 256 for j in range(w))
+                buf[off:off + w] = bytes((0x7B + k * 7 + j * 37) % 256 for j in range(w))  # any bytes: NUL, ASCII and >= 0x80
                 continue
             else:
                 continue
